@@ -323,6 +323,24 @@ class Ctx:
         return p
 
 
+def crash_attribution(out):
+    """A harness test binary that died: returns (kind, excerpt) when the goroutine that was running at the time of the
+    fatal error / panic was executing gostatsd code (its stack has a github.com/atlassian/gostatsd frame above any
+    harness frame), else None. Used only by properties whose statement is crash-freedom."""
+    m = re.search(r"^(fatal error: .*|panic: .*)$", out, re.M)
+    if not m:
+        return None
+    rest = out[m.start():]
+    g = re.search(r"^goroutine \d+ [^\n]*\[running\]:\n((?:.*\n){1,80})", rest, re.M)
+    stack = g.group(1) if g else rest[:6000]
+    for line in stack.splitlines():
+        if "verifharness/" in line:
+            return None
+        if "github.com/atlassian/gostatsd" in line:
+            return (m.group(1).strip(), rest[:4000])
+    return None
+
+
 _gosum_done = False
 
 
